@@ -481,3 +481,117 @@ def run(chk, prog):
                        'the writer produced (for instance the root container, saved as the empty path before the first '
                        'continue or in a fresh flow) is refused when the save is read back'
                        % ', '.join(d for _, d in bad), tfj.loc(bad[0][0]) if bad else None)
+    index_component_is_the_position_in_content(chk, prog, tr)
+
+
+SELECTING_ADAPTORS = ('filter', 'filter_map', 'skip', 'skip_while', 'step_by', 'rev', 'chain', 'flat_map', 'flatten',
+                      'take_while', 'map_while', 'scan', 'peekable', 'zip', 'dedup', 'retain')
+
+
+def index_component_is_the_position_in_content(chk, prog, tr):
+    """Seed C19-5: the index written into a path was the rank among the unnamed children (filter before enumerate)."""
+    R = 'C19.index-component-is-the-position-in-content'
+    chk.rule(R, 'A path addresses an unnamed child by a number that content_with_path_component uses as an index into the whole '
+             'of Container::content. So the number Object::get_path writes is the child\'s position in that very vector: it '
+             'comes from Iterator::position over Container::content, or - when it is remembered in a field - every value '
+             'stored there comes from enumerate() applied to the iteration of Container::content with no selecting adaptor '
+             '(filter, skip, rev, chain, ...) between the vector and the enumerate. A rank among some of the children agrees '
+             'with the position only until a named container precedes the child.')
+    from analysis.defuse import full_lineage
+    gp = prog.fn('Object::get_path')
+    if not chk.anchor(R, 'Object::get_path', gp):
+        return
+    sites = [(g, bb, t) for g in prog.with_closures(gp) for bb, t in g.calls() if callee_short(t) == 'Component::new_i']
+    if not chk.anchor(R, 'Component::new_i in Object::get_path', sites):
+        return
+    chk.floor(R, 'index components built by Object::get_path', len(sites), 1)
+
+    def lineage_ok(at):
+        names = {x[4:].rsplit('::', 1)[-1] for x in at if x.startswith('via:')} | \
+                {x[5:].rsplit('::', 1)[-1] for x in at if x.startswith('call:')}
+        sel = sorted(n for n in names if n in SELECTING_ADAPTORS)
+        return ('field:Container::content' in at and ('enumerate' in names or 'position' in names) and not sel), sel
+
+    for i, (g, bb, t) in enumerate(sites):
+        at = set(tr.prov(g, t['args'][0]))
+        key = chk.key(R, 'get_path', 'index#%d' % i)
+        pos = [x for x in at if x.startswith('call:') and x.endswith('::position')]
+        if pos:
+            # the receiver of the position call
+            ok, why = False, 'the receiver of position() is not Container::content'
+            for g2 in prog.with_closures(gp):
+                for bb2, t2 in g2.calls():
+                    if callee_short(t2).endswith('::position') and t2['args']:
+                        la = set(full_lineage(prog, g2, t2['args'][0]))
+                        names = {x[4:].rsplit('::', 1)[-1] for x in la if x.startswith('via:')}
+                        sel = sorted(n for n in names if n in SELECTING_ADAPTORS)
+                        if 'field:Container::content' in la and not sel:
+                            ok = True
+                        elif sel:
+                            why = 'position() runs over Container::content behind %s' % sel
+            chk.decide(R, key, ok, 'position() over Container::content',
+                       'the index Object::get_path writes into a path is not the position in the parent\'s content: ' + why,
+                       g.loc(bb))
+            continue
+        flds = sorted(x[6:] for x in at if x.startswith('field:') and x != 'field:Container::content')
+        if not flds:
+            chk.fail(R, key, 'cannot tell where the index Object::get_path writes into a path comes from (%s): it must be the '
+                     'position of the child in Container::content' % sorted(at)[:6], g.loc(bb))
+            continue
+        # remembered in a field: every value stored there is enumerate() over the whole content
+        problems, nstores = [], 0
+        for fld in flds:
+            for w in sorted(prog.fns.values(), key=lambda f: f.p):
+                if w.crate != 'bladeink':
+                    continue
+                stores = []
+                for wb, wt in w.calls():
+                    if callee_short(wt) in ('Cell::set', 'Cell::replace', 'RefCell::replace', 'OnceCell::set') and len(wt['args']) >= 2 \
+                            and 'field:' + fld in tr.prov(w, wt['args'][0]):
+                        stores.append((wb, wt['args'][1]))
+                for wb, si, st in w.stmts():
+                    if st['k'] == 'assign' and st['pl'].get('p') and st['pl']['p'][-1].get('k') == 'field' \
+                            and '%s::%s' % (tyname_(st['pl']['p'][-1].get('adt', '')), st['pl']['p'][-1].get('n')) == fld \
+                            and st['rv']['k'] == 'use':
+                        stores.append((wb, st['rv']['op']))
+                for wb, vop in stores:
+                    vat = set(tr.prov(w, vop))
+                    if vat and all(x.startswith(('const:', 'agg:')) for x in vat):
+                        continue          # the initial None
+                    nstores += 1
+                    params = sorted(int(x.split(':')[1]) for x in vat if x.startswith('arg:'))
+                    if not params:
+                        ok, sel = lineage_ok(set(full_lineage(prog, w, vop)))
+                        if not ok:
+                            problems.append((w, wb, sel))
+                        continue
+                    # handed in by the callers
+                    ncall = 0
+                    for c in prog.fns.values():
+                        for cb, ct in c.calls():
+                            if callee(ct) == w.p:
+                                for k in params:
+                                    if k - 1 < len(ct['args']):
+                                        ncall += 1
+                                        ok, sel = lineage_ok(set(full_lineage(prog, c, ct['args'][k - 1])))
+                                        if not ok:
+                                            problems.append((c, cb, sel))
+                    if not ncall:
+                        problems.append((w, wb, ['no caller found']))
+        if not nstores:
+            chk.fail(R, key, 'the index Object::get_path writes into a path is read from %s, and no place that stores it was '
+                     'found' % flds, g.loc(bb))
+            continue
+        c0 = problems[0] if problems else None
+        chk.decide(R, key, not problems, 'remembered position: every store is enumerate() over the whole of Container::content',
+                   'the index Object::get_path writes into a path is read from %s, and %s stores there a number that is not '
+                   'the position in the whole of Container::content (%s between the vector and the numbering): a child that '
+                   'follows a named container gets the path of an earlier sibling, and content_with_path_component resolves '
+                   'it - not approximately - to that sibling'
+                   % (flds, prog.root_fn(c0[0]).short if c0 else '', ', '.join(c0[2]) if c0 and c0[2] else 'no enumerate over content'),
+                   c0[0].loc(c0[1]) if c0 else None)
+
+
+def tyname_(t):
+    from analysis.facts import tyname
+    return tyname(t)
